@@ -1,8 +1,9 @@
 ------------------------------ MODULE MC_Retry ------------------------------
 (* Exhaustive configurations (stage 1) and scenario emission (stage 2) for Retry (C04).        *)
 (*                                                                                             *)
-(* Stage 1: Cfgs <- one of the product sets below; VIEW View hides the history variables so    *)
-(* TLC explores the collapsed graph; the INVARIANT / PROPERTY lines of the cfg are the Rules.  *)
+(* Stage 1: SPECIFICATION MCSpec with Family / domains chosen in the cfg; VIEW View hides the   *)
+(* history variables so TLC explores the collapsed graph; the INVARIANT / PROPERTY lines of the *)
+(* cfg are the Rules.                                                                           *)
 (* Stage 2: Cfgs <- FileCfgs (configurations chosen by the harness: pairwise cover + seeded    *)
 (* sample, passed as JSON), TrackTrail = TRUE, no VIEW: every environment history is a distinct *)
 (* path; at each terminal transition EmitSC prints the scenario (configuration id x outcome     *)
@@ -14,47 +15,66 @@ Cfg(how, level, t, cn, rd, st, ot, al, fl, ros, resp, fa, bm, ji, meth, route, k
      allowed |-> al, forcelist |-> fl, ros |-> ros, respect |-> resp, factor |-> fa, bmax |-> bm, jitter |-> ji,
      method |-> meth, route |-> route, ka |-> ka]
 
-\* every counter combination of the property's quantifier x what gates a retry (backoff fixed)
-BudgetCfgs(T, CR, SO, AL, FL, ROS, RESP, meths, routes) ==
-    { Cfg("retry", "request", t, cn, rd, st, ot, al, fl, ros, resp, 0, DefaultBackoffMax, 0, meth, route, "keep") :
-        t \in T, cn \in CR, rd \in CR, st \in SO, ot \in SO, al \in AL,
-        fl \in FL, ros \in ROS, resp \in RESP, meth \in meths, route \in routes }
+(* Configuration families.  They are enumerated by Init (streaming), never built as one set,    *)
+(* because TLC evaluates zero-arity constant definitions eagerly.  The small domains come from   *)
+(* the cfg file: DT (total), DCR (connect, read), DSO (status, other), DFlag (BOOLEAN or {TRUE}). *)
+CONSTANTS Family, DT, DCR, DSO, DFlag, DRoutes
+TQuick    == {NoneV, FalseV, 0, 1}
+TFull     == {NoneV, FalseV, 0, 1, 2}
+CRQuick   == {NoneV, FalseV, 0, 1}
+CRFull    == {NoneV, FalseV, 0, 1, 2}
+SOQuick   == {NoneV, 0, 1}
+SOFull    == {NoneV, 0, 1, 2}
+JustTrue  == {TRUE}
+RDirect   == {"direct"}
+RForward  == {"forward"}
+RBoth     == {"direct", "forward"}
 Al3 == {"default", "none", "post"}
 GP  == {"GET", "POST"}
-CfgsBudgetsQuick ==
-    BudgetCfgs({NoneV, FalseV, 0, 1}, {NoneV, FalseV, 0, 1}, {NoneV, 0, 1}, {"default", "none"}, {TRUE}, {TRUE}, {TRUE}, GP, {"direct"})
-    \cup BudgetCfgs({NoneV, FalseV, 0, 1}, {NoneV, 0}, {NoneV, 0, 1}, Al3, BOOLEAN, BOOLEAN, BOOLEAN, GP, {"direct", "forward"})
-CfgsBudgetsThorough ==
-    BudgetCfgs({NoneV, FalseV, 0, 1, 2}, {NoneV, FalseV, 0, 1, 2}, {NoneV, 0, 1, 2}, Al3, BOOLEAN, {TRUE}, {TRUE}, GP, {"direct"})
-    \cup BudgetCfgs({NoneV, FalseV, 0, 1, 2}, {NoneV, FalseV, 0, 1}, {NoneV, 0, 1}, Al3, BOOLEAN, BOOLEAN, BOOLEAN, GP, {"direct", "forward"})
-\* backoff x Retry-After handling, everything retryable
-CfgsBackoff ==
-    { Cfg("retry", "request", t, NoneV, NoneV, NoneV, NoneV, "none", TRUE, ros, resp, fa, bm, ji, "POST", "direct", ka) :
-        t \in {NoneV, 2, 4}, ros \in BOOLEAN, resp \in BOOLEAN, fa \in {0, 100, 100000}, bm \in {DefaultBackoffMax, 1000},
-        ji \in {0, 500}, ka \in {"keep", "close"} }
-\* the forms in which `retries` may be given, at request or pool level
-CfgsForms ==
-    { Cfg(how, level, t, NoneV, NoneV, NoneV, NoneV, "default", FALSE, TRUE, TRUE, 0, DefaultBackoffMax, 0, meth, route, ka) :
-        how \in {"false", "int", "default"}, level \in {"request", "pool"}, t \in {0, 1, 2},
-        meth \in {"GET", "POST", "PUT", "DELETE"}, route \in {"direct", "forward"}, ka \in {"keep", "close"} }
-    \cup
-    { Cfg("retry", "pool", t, NoneV, rd, NoneV, NoneV, al, TRUE, TRUE, TRUE, 0, DefaultBackoffMax, 0, meth, route, "keep") :
-        t \in {FalseV, 1, 2}, rd \in {NoneV, 0}, al \in {"default", "post"},
-        meth \in {"GET", "POST", "PUT", "DELETE"}, route \in {"direct", "forward"} }
-\* CONNECT tunnel: only pre-send failures are scripted (no TLS party); unbounded policies excluded
-CfgsTunnel ==
-    { Cfg("retry", "request", t, cn, NoneV, NoneV, ot, "default", FALSE, TRUE, TRUE, 0, DefaultBackoffMax, 0, meth, "tunnel", "close") :
-        t \in {FalseV, 0, 1, 2}, cn \in {NoneV, FalseV, 0, 1}, ot \in {NoneV, 0, 1, 2}, meth \in {"GET", "POST"} }
+M4  == {"GET", "POST", "PUT", "DELETE"}
 
-CfgsStage1Quick    == CfgsBudgetsQuick \cup CfgsBackoff \cup CfgsForms \cup CfgsTunnel
-CfgsStage1Thorough == CfgsBudgetsThorough \cup CfgsBackoff \cup CfgsForms \cup CfgsTunnel
-CfgsForward        == { c \in CfgsBudgetsQuick \cup CfgsForms : c.route = "forward" }
-CfgsLiveness       == { c \in CfgsBudgetsQuick \cup CfgsBackoff \cup CfgsForms \cup CfgsTunnel : Bounded(c) }
+\* "budgets": every counter combination of the property's quantifier x what gates a retry
+InBudgets(c) ==
+    \E t \in DT, cn \in DCR, rd \in DCR, st \in DSO, ot \in DSO, al \in Al3, fl \in BOOLEAN, ros \in DFlag, resp \in DFlag,
+       meth \in GP, route \in DRoutes :
+        c = Cfg("retry", "request", t, cn, rd, st, ot, al, fl, ros, resp, 0, DefaultBackoffMax, 0, meth, route, "keep")
+\* "backoff": backoff x Retry-After handling, everything retryable
+InBackoff(c) ==
+    \E t \in {NoneV, 2, 4}, ros \in BOOLEAN, resp \in BOOLEAN, fa \in {0, 100, 100000}, bm \in {DefaultBackoffMax, 1000},
+       ji \in {0, 500}, ka \in {"keep", "close"} :
+        c = Cfg("retry", "request", t, NoneV, NoneV, NoneV, NoneV, "none", TRUE, ros, resp, fa, bm, ji, "POST", "direct", ka)
+\* "forms": the forms in which `retries` may be given, at request or pool level
+InForms(c) ==
+    \/ \E how \in {"false", "int", "default"}, level \in {"request", "pool"}, t \in {0, 1, 2}, meth \in M4,
+          route \in {"direct", "forward"}, ka \in {"keep", "close"} :
+        c = Cfg(how, level, t, NoneV, NoneV, NoneV, NoneV, "default", FALSE, TRUE, TRUE, 0, DefaultBackoffMax, 0, meth, route, ka)
+    \/ \E t \in {FalseV, 1, 2}, rd \in {NoneV, 0}, al \in {"default", "post"}, meth \in M4, route \in {"direct", "forward"} :
+        c = Cfg("retry", "pool", t, NoneV, rd, NoneV, NoneV, al, TRUE, TRUE, TRUE, 0, DefaultBackoffMax, 0, meth, route, "keep")
+\* "tunnel": CONNECT tunnel; only pre-send failures are scripted (no TLS party); bounded policies
+InTunnel(c) ==
+    \E t \in {FalseV, 0, 1, 2}, cn \in {NoneV, FalseV, 0, 1}, ot \in {NoneV, 0, 1, 2}, meth \in GP :
+        c = Cfg("retry", "request", t, cn, NoneV, NoneV, ot, "default", FALSE, TRUE, TRUE, 0, DefaultBackoffMax, 0, meth, "tunnel", "close")
+InFamily(c) == \/ "budgets" \in Family /\ InBudgets(c)
+               \/ "backoff" \in Family /\ InBackoff(c)
+               \/ "forms"   \in Family /\ InForms(c)
+               \/ "tunnel"  \in Family /\ InTunnel(c)
+FamAll     == {"budgets", "backoff", "forms", "tunnel"}
+FamBudgets == {"budgets"}
+FamSmall   == {"backoff", "forms", "tunnel"}
+FamForward == {"budgets", "forms"}
+
+MCInit == /\ InFamily(cfg)
+          /\ m = M0 /\ trail = <<>> /\ evs = <<>> /\ ob = Ob0
+MCSpec == MCInit /\ [][Next]_vars /\ WF_vars(Next)
+\* only the forwarding route (runs with the D2 deviation enabled) / only bounded policies (liveness)
+ForwardOnly == cfg.route = "forward"
+BoundedOnly == Bounded(cfg)
+NoCfgs == {}
 
 OutcomesPlain == AllOutcomes \ {"TunRefused"}
 OutcomesAll   == AllOutcomes
-OutcomesCore  == {"ConnRefused", "SendErr", "ReadTimeout", "ReadReset", "ReadEOF", "ReadGarbage", "OK200", "S500",
-                  "S429RA", "S503RA", "S413RA", "S404RA", "TunRefused"}
+\* one representative per class the Model / the monitor distinguish (quick stage 1)
+OutcomesCore  == {"ConnRefused", "SendErr", "ReadTimeout", "ReadEOF", "OK200", "S500", "S429RA", "S404RA", "TunRefused"}
 
 NoDefects == {}
 DefectD2  == {"D2"}
